@@ -255,6 +255,19 @@ func (d *fnode) mkdir(p string) *fnode {
 	return cur
 }
 
+// lookupDir reports whether the slash-separated path exists below d as a directory.
+func (d *fnode) lookupDir(p string) (*fnode, bool) {
+	cur := d
+	for _, c := range strings.Split(p, "/") {
+		nx, ok := cur.ents[c]
+		if !ok || nx.kind != 'd' {
+			return nil, false
+		}
+		cur = nx
+	}
+	return cur, true
+}
+
 func materialise(scn string, at string, n *fnode) error {
 	switch n.kind {
 	case 'f':
@@ -425,6 +438,22 @@ type scenario struct {
 	root    *fnode
 	outside *fnode // sibling of root (targets of links that leave the root); may be nil
 	queries []query
+	// history: further states of the same directory, queried one after the
+	// other through the SAME X509TrustStore instance (root path unchanged)
+	next []*scenario
+	// as a later step of a history: files are rewritten in place (same names;
+	// the directory itself is not touched, its modification time stays)
+	inPlace bool
+}
+
+func (sc *scenario) steps() []*scenario { return append([]*scenario{sc}, sc.next...) }
+
+func (sc *scenario) nq() int {
+	n := 0
+	for _, st := range sc.steps() {
+		n += len(st.queries)
+	}
+	return n
 }
 
 type c13Case struct {
@@ -433,6 +462,7 @@ type c13Case struct {
 	Name   string   `json:"store_name"`
 	Tree   []string `json:"tree_below_root"`
 	Obs    string   `json:"observed"`
+	Step   string   `json:"history_step,omitempty"`
 }
 
 type gen struct {
@@ -501,7 +531,7 @@ func (g *gen) goodFile(ty string) *fnode {
 	return newFile(b, "good/"+f)
 }
 
-var badKinds = []string{"garbage", "empty", "text", "truncated", "pem-garbage", "key", "cert+garbage", "badcert", "badcert-multi",
+var badKinds = []string{"garbage", "empty", "whitespace", "pem-empty-block", "text", "truncated", "pem-garbage", "key", "cert+garbage", "badcert", "badcert-multi",
 	"subdir-empty", "subdir-certs", "link-file-in", "link-file-out", "link-dangling", "link-dir", "tsa-nonroot", "tsa-nonroot-multi"}
 
 // badEntry builds an entry that must make the whole store fail for type ty.
@@ -520,6 +550,10 @@ func (g *gen) badEntry(kind, ty string, sc *scenario, storeRel string) *fnode {
 		return newFile(b, kind)
 	case "empty":
 		return newFile(nil, kind)
+	case "whitespace":
+		return newFile([]byte(Pick(rng, []string{"\n", " ", "\r\n\r\n", "\t\n"})), kind)
+	case "pem-empty-block":
+		return newFile([]byte("-----BEGIN CERTIFICATE-----\n-----END CERTIFICATE-----\n"), kind)
 	case "text":
 		return newFile([]byte("this is not a certificate\n"), kind)
 	case "truncated":
@@ -589,6 +623,12 @@ func (g *gen) badEntry(kind, ty string, sc *scenario, storeRel string) *fnode {
 	panic("bad kind " + kind)
 }
 
+// badEntryFile: a bad entry of a kind that needs no link target.
+func (g *gen) badEntryFile(kind string) *fnode {
+	tmp := &scenario{root: newDir()}
+	return g.badEntry(kind, "tsa", tmp, "")
+}
+
 func (g *gen) badKindFor(ty string) string {
 	for {
 		k := Pick(g.rng, badKinds)
@@ -616,7 +656,7 @@ func (g *gen) names(k int) []string {
 }
 
 var validTypes = []string{"ca", "signingAuthority", "tsa"}
-var plainNames = []string{"web", "my.store-1_x", "...", "a..b", ".hidden", "-", "_", "-rf", "UPPER.lower-09_", "..a", "a.", "0", "x509", "ca", "tsa",
+var plainNames = []string{"web", "my.store-1_x", "...", "a..b", ".hidden", "-", "_", "-rf", "UPPER.lower-09_", "..a", "a.", "0", "x509", "ca", "tsa", "....", ".a.", "--", "Web", "WEB",
 	"aaaaaaaaaaaaaaaaaaaaaaaaaaaaaaaaaaaaaaaaaaaaaaaaaaaaaaaaaaaaaaaaaaaaaaaaaaaaaaaaaaaaaaaaaaaaaaaaaaaaaaaaaaaaaaaaaaaaaaaaaaaaaaaaaaaaaaaaaaaaaaaaaaaaaa"}
 
 // names that are not plain file names; those without '/' can exist as directories
@@ -684,9 +724,6 @@ func (g *gen) scenarios(tier string, emit func(*scenario)) {
 				}
 				for k := 1; k <= 4; k++ {
 					for pos := 0; pos < k; pos++ {
-						if tier != "thorough" && k == 4 && pos != 1 && pos != 3 && rng.Chance(1, 2) {
-							continue
-						}
 						sc := &scenario{family: "one-bad:" + kind, root: newDir()}
 						nm := Pick(rng, plainNames)
 						d := sc.root.mkdir(storeRel(ty, nm))
@@ -848,6 +885,236 @@ func (g *gen) scenarios(tier string, emit func(*scenario)) {
 			emit(sc)
 		}
 	}
+	// F7: histories — ONE X509TrustStore instance, the directory changes between calls
+	// (a result remembered from an earlier call would be wrong for the later state)
+	histBad := []string{"garbage", "empty", "badcert", "subdir-empty"}
+	for r := 0; r < 1*mult; r++ {
+		for _, ty := range validTypes {
+			nm := Pick(rng, plainNames[:6])
+			other := Pick(rng, []string{"other", "second.store", "B"})
+			mk := func(fam string, stores ...map[string]*fnode) *scenario {
+				// stores[0] -> (ty,nm), stores[1] -> (ty,other); nil = absent
+				st := &scenario{family: fam, root: newDir()}
+				for i, ents := range stores {
+					if ents == nil {
+						continue
+					}
+					d := st.root.mkdir(storeRel(ty, []string{nm, other}[i]))
+					for k, v := range ents {
+						d.ents[k] = v
+					}
+				}
+				st.queries = []query{{ty, nm}}
+				return st
+			}
+			chain := func(steps ...*scenario) *scenario {
+				steps[0].next = steps[1:]
+				return steps[0]
+			}
+			gA, gB, gC := g.goodFile(ty), g.goodFile(ty), g.goodFile(ty)
+			for _, bk := range histBad {
+				tmp := &scenario{root: newDir()}
+				bad := g.badEntry(bk, ty, tmp, "")
+				// pass, fail, pass
+				emit(chain(mk("history:pass-fail-pass", map[string]*fnode{"a.pem": gA, "m.crt": gB}),
+					mk("history:pass-fail-pass", map[string]*fnode{"a.pem": gA, "b-new": bad, "m.crt": gB}),
+					mk("history:pass-fail-pass", map[string]*fnode{"a.pem": gA, "m.crt": gB})))
+				// fail, pass, fail (the offending entry first, then last)
+				emit(chain(mk("history:fail-pass-fail", map[string]*fnode{"0bad": bad, "a.pem": gA}),
+					mk("history:fail-pass-fail", map[string]*fnode{"a.pem": gA}),
+					mk("history:fail-pass-fail", map[string]*fnode{"a.pem": gA, "zbad": bad})))
+			}
+			if ty == "tsa" {
+				tmp := &scenario{root: newDir()}
+				nr := g.badEntry("tsa-nonroot", ty, tmp, "")
+				emit(chain(mk("history:pass-fail-pass", map[string]*fnode{"a.pem": gA}),
+					mk("history:pass-fail-pass", map[string]*fnode{"a.pem": gA, "n.pem": nr}),
+					mk("history:pass-fail-pass", map[string]*fnode{"a.pem": gA})))
+			}
+			// the certificates change: A, then B and C, then C alone, then nothing, then A
+			emit(chain(mk("history:content-changes", map[string]*fnode{"a.pem": gA}),
+				mk("history:content-changes", map[string]*fnode{"a.pem": gB, "c.pem": gC}),
+				mk("history:content-changes", map[string]*fnode{"c.pem": gC}),
+				mk("history:content-changes", map[string]*fnode{}),
+				mk("history:content-changes", map[string]*fnode{"a.pem": gA})))
+			// files rewritten in place: the directory listing and its modification time do not change
+			for _, bk := range []string{"garbage", "badcert"} {
+				bad := g.badEntryFile(bk)
+				p1 := mk("history:rewritten-in-place", map[string]*fnode{"a.pem": gA, "b.pem": gB})
+				p2 := mk("history:rewritten-in-place", map[string]*fnode{"a.pem": gA, "b.pem": bad})
+				p3 := mk("history:rewritten-in-place", map[string]*fnode{"a.pem": gC, "b.pem": gA})
+				p4 := mk("history:rewritten-in-place", map[string]*fnode{"a.pem": bad, "b.pem": gA})
+				p5 := mk("history:rewritten-in-place", map[string]*fnode{"a.pem": gB, "b.pem": gB})
+				p2.inPlace, p3.inPlace, p4.inPlace, p5.inPlace = true, true, true, true
+				emit(chain(p1, p2, p3, p4, p5))
+			}
+			// the store disappears and comes back; another store is asked in between
+			s1 := mk("history:store-comes-and-goes", map[string]*fnode{"a.pem": gA}, map[string]*fnode{"b.pem": gB})
+			s1.queries = []query{{ty, nm}, {ty, other}, {ty, nm}}
+			s2 := mk("history:store-comes-and-goes", nil, map[string]*fnode{"b.pem": gB})
+			s2.queries = []query{{ty, nm}, {ty, other}}
+			s3 := mk("history:store-comes-and-goes", map[string]*fnode{"c.pem": gC}, nil)
+			s3.queries = []query{{ty, other}, {ty, nm}}
+			emit(chain(s1, s2, s3))
+			// the store becomes a symbolic link to a directory with the same files, then a file, then real again
+			l1 := mk("history:store-becomes-link", map[string]*fnode{"a.pem": gA})
+			l2 := &scenario{family: "history:store-becomes-link", root: newDir(), outside: newDir()}
+			l2.outside.put("moved/a.pem", gA)
+			l2.root.put(storeRel(ty, nm), newLink("@outside/moved"))
+			l2.queries = []query{{ty, nm}}
+			l3 := &scenario{family: "history:store-becomes-link", root: newDir()}
+			l3.root.put(storeRel(ty, nm), gA)
+			l3.queries = []query{{ty, nm}}
+			l4 := mk("history:store-becomes-link", map[string]*fnode{"a.pem": gA})
+			emit(chain(l1, l2, l3, l4))
+			// an entry becomes a symbolic link to the file it was
+			e1 := mk("history:entry-becomes-link", map[string]*fnode{"a.pem": gA, "b.pem": gB})
+			e2 := mk("history:entry-becomes-link", map[string]*fnode{"a.pem": gA, "b.pem": newLink("@outside/b.pem")})
+			e2.outside = newDir()
+			e2.outside.put("b.pem", gB)
+			emit(chain(e1, e2, mk("history:entry-becomes-link", map[string]*fnode{"a.pem": gA, "b.pem": gB})))
+			// the same name under another type, one instance: files good for ca only
+			t2 := validTypes[(indexOf(validTypes, ty)+1)%3]
+			x1 := &scenario{family: "history:same-name-other-type", root: newDir()}
+			nrf := g.badEntryFile("tsa-nonroot")
+			x1.root.put(storeRel(ty, nm)+"/a.pem", g.goodFile("tsa"))
+			x1.root.put(storeRel(t2, nm)+"/a.pem", nrf)
+			x1.queries = []query{{ty, nm}, {t2, nm}, {ty, nm}, {"tsa", nm}}
+			emit(x1)
+		}
+	}
+	// F8: names and types one normalisation away from a valid one (trimmed, case-folded,
+	// last / first path element, cleaned): loadable stores sit at every place a normalising
+	// implementation would read
+	type near struct {
+		q     string
+		lands []string
+		noLit bool // nothing is placed at the literal path of q
+	}
+	for r := 0; r < 1*mult; r++ {
+		for _, ty := range validTypes {
+			base := Pick(rng, []string{"web", "Store-1", "my.store"})
+			up, low := strings.ToUpper(base), strings.ToLower(base)
+			nears := []near{
+				{" " + base, []string{base}, false}, {base + " ", []string{base}, false}, {base + "\n", []string{base}, false}, {base + "\t", []string{base}, false},
+				{base + "\r\n", []string{base}, false}, {"\t" + base + " ", []string{base}, false},
+				{up, []string{low}, true}, {low, []string{up}, true}, {strings.Title(low), []string{low, up}, true},
+				{"sub/" + base, []string{base}, false}, {"sub/" + base, []string{"sub"}, false}, {base + "/sub", []string{base}, false},
+				{base + "/", []string{base}, false}, {"/" + base, []string{base}, false}, {"./" + base, []string{base}, false}, {base + "/.", []string{base}, false},
+				{base + "\x00", []string{base}, false}, {base + "\x00.pem", []string{base}, false}, {base + ".", []string{base}, true}, {"." + base, []string{base}, true},
+				{base + "*", []string{base}, false}, {"\"" + base + "\"", []string{base}, false}, {base + ",other", []string{base, "other"}, false},
+				{"%2e%2e", []string{"other"}, false}, {base + "%20", []string{base}, false},
+			}
+			for _, n := range nears {
+				sc := &scenario{family: "near-name", root: newDir()}
+				var placed []string
+				cands := append([]string{}, n.lands...)
+				if !n.noLit {
+					cands = append(cands, n.q)
+				}
+			place:
+				for _, l := range cands {
+					wb := wouldBe(ty, l)
+					if wb == "" || !strings.HasPrefix(wb, "truststore/x509/"+ty+"/") {
+						continue
+					}
+					for _, pl := range placed {
+						if wb == pl || strings.HasPrefix(wb, pl+"/") || strings.HasPrefix(pl, wb+"/") {
+							continue place
+						}
+					}
+					g.goodStore(sc, wb, ty, 1+rng.Intn(2))
+					placed = append(placed, wb)
+				}
+				sc.queries = []query{{ty, n.q}}
+				emit(sc)
+			}
+			nm := Pick(rng, plainNames[:2])
+			canon := map[string]string{"ca": "CA", "signingAuthority": "SigningAuthority", "tsa": "Tsa"}[ty]
+			for _, qt := range []string{" " + ty, ty + " ", ty + "\n", "\t" + ty, strings.ToUpper(ty), strings.ToLower(ty) + "", canon, ty + "/", "/" + ty, "./" + ty,
+				ty + "/.", "x/../" + ty, ty + "\x00", ty + "s", "x509/" + ty, ty + "," + ty, "\"" + ty + "\""} {
+				if qt == ty {
+					continue
+				}
+				sc := &scenario{family: "near-type", root: newDir()}
+				g.goodStore(sc, storeRel(ty, nm), ty, 1+rng.Intn(2))
+				if wb := wouldBe(qt, nm); wb != "" && wb != storeRel(ty, nm) && !strings.HasPrefix(storeRel(ty, nm), wb+"/") && !strings.HasPrefix(wb, storeRel(ty, nm)+"/") {
+					g.goodStore(sc, wb, ty, 1)
+				}
+				sc.queries = []query{{qt, nm}}
+				emit(sc)
+			}
+		}
+	}
+	// F9: entries with names a "clean-up" would skip (hidden, backup, readme, unknown
+	// extension): as the offending entry, as one good file among others, as the only files
+	skipNames := []string{".hidden", ".DS_Store", ".gitkeep", "README", "notes.txt", "cert.pem.bak", "~tmp", "Thumbs.db", "ca.PEM", "noext", "x.p7b", "x.key"}
+	for r := 0; r < 1*mult; r++ {
+		for _, ty := range validTypes {
+			nm := Pick(rng, plainNames[:6])
+			for _, sn := range skipNames {
+				for v := 0; v < 4; v++ {
+					sc := &scenario{family: "skippable-entry-name", root: newDir()}
+					d := sc.root.mkdir(storeRel(ty, nm))
+					switch v {
+					case 0: // offending file with that name among good ones
+						d.ents["a.pem"], d.ents["z.crt"] = g.goodFile(ty), g.goodFile(ty)
+						d.ents[sn] = g.badEntry(Pick(rng, []string{"garbage", "empty", "text", "badcert"}), ty, sc, "")
+					case 1: // good file with that name among good ones: its certificates belong to the result
+						d.ents["a.pem"], d.ents["z.crt"] = g.goodFile(ty), g.goodFile(ty)
+						d.ents[sn] = g.goodFile(ty)
+					case 2: // the only file
+						d.ents[sn] = g.goodFile(ty)
+					case 3: // a directory or a link with that name
+						d.ents["a.pem"] = g.goodFile(ty)
+						if rng.Bool() {
+							d.ents[sn] = newDir()
+						} else {
+							d.ents[sn] = g.badEntry("link-file-out", ty, sc, "")
+						}
+					}
+					sc.queries = []query{{ty, nm}}
+					emit(sc)
+				}
+			}
+		}
+	}
+	// F10: the unacceptable certificate at every position inside a multi-certificate file,
+	// that file first and last among the entries
+	for r := 0; r < 1*mult; r++ {
+		for _, ty := range validTypes {
+			preds := []func(*pcert) bool{func(c *pcert) bool { return !c.okCA() }}
+			if ty == "tsa" {
+				preds = append(preds, func(c *pcert) bool { return c.okCA() && !c.okTSA() })
+			}
+			for pi, pred := range preds {
+				for n := 2; n <= 4; n++ {
+					for pos := 0; pos < n; pos++ {
+						for _, fileFirst := range []bool{true, false} {
+							sc := &scenario{family: "cert-position", root: newDir()}
+							nm := Pick(rng, plainNames[:6])
+							cs := make([]*pcert, n)
+							for i := range cs {
+								cs[i] = g.p.pick(rng, okFor(ty))
+							}
+							cs[pos] = g.p.pick(rng, pred)
+							b, f := g.encode(cs)
+							d := sc.root.mkdir(storeRel(ty, nm))
+							if fileFirst {
+								d.ents["a-multi"] = newFile(b, fmt.Sprintf("bad%d@%d/%s", pi, pos, f))
+								d.ents["b.pem"] = g.goodFile(ty)
+							} else {
+								d.ents["a.pem"] = g.goodFile(ty)
+								d.ents["z-multi"] = newFile(b, fmt.Sprintf("bad%d@%d/%s", pi, pos, f))
+							}
+							sc.queries = []query{{ty, nm}}
+							emit(sc)
+						}
+					}
+				}
+			}
+		}
+	}
 	// F6: randomly assembled trees, every store asked, plus names that are not there
 	nrand := 260 * mult
 	for r := 0; r < nrand; r++ {
@@ -908,7 +1175,7 @@ func runC13(a *Args) error {
 		prelude += fmt.Sprintf("Definition k%d : cert := %s. (* %s *)\n", i+1, full, c.label)
 	}
 	w := NewCaseWriter(a, "C13", prelude, "case", "run")
-	w.Rule = "real temporary directory trees queried through truststore.NewX509TrustStore(dir.NewSysFS(root)).GetCertificates: (valid) stores of 1-4 good files per type; (one-bad) one offending entry of each of 17 kinds at every position among 1-4 entries; the same files under all three types; 14 shapes of the store path itself (symlinked store inside/outside/relative/chained, dangling, file, absent, empty, type directory absent/file/symlink, x509 a file, truststore a symlink); non-plain names and unknown types with a loadable store placed where an unvalidated path.Join would lead (incl. '.', '..', '' with certificates directly in the type directory and in x509/); randomly assembled trees. File formats: PEM, DER, multi-certificate, PEM with surrounding text, other block type, CRLF. The tree handed to the model is read back with Lstat/ReadDir/EvalSymlinks and file facts are asked from notation-core-go and crypto/x509. non-trivial = some regular file with at least one certificate exists below the root or behind a link; distinct = distinct (tree, type, name)"
+	w.Rule = "real temporary directory trees queried through truststore.NewX509TrustStore(dir.NewSysFS(root)).GetCertificates: (valid) stores of 1-4 good files per type; (one-bad) one offending entry of each of 17 kinds at every position among 1-4 entries; the same files under all three types; 14 shapes of the store path itself (symlinked store inside/outside/relative/chained, dangling, file, absent, empty, type directory absent/file/symlink, x509 a file, truststore a symlink); non-plain names and unknown types with a loadable store placed where an unvalidated path.Join would lead (incl. '.', '..', '' with certificates directly in the type directory and in x509/); randomly assembled trees; (history) 2-5 states of one directory queried through ONE X509TrustStore instance: pass/fail/pass, fail/pass/fail, certificates replaced, store removed and recreated, store turned into a symlink / a file and back, an entry turned into a symlink, same name under another type - each call is its own case judged on the tree as read back at that moment; (near-name / near-type) a name or type one normalisation away from a valid one (surrounding white space, case, first / last path element, trailing separator, NUL, trailing dot, quotes, list) with loadable stores at every place a normalising implementation would read and nothing at the literal plain name; (skippable-entry-name) hidden / backup / readme / odd-extension names as the offending entry, as a good file among others, as the only file, as directory or link; (cert-position) the unacceptable certificate at every position of a 2-4 certificate file, that file first and last. File formats: PEM, DER, multi-certificate, PEM with surrounding text, other block type, CRLF. The tree handed to the model is read back with Lstat/ReadDir/EvalSymlinks and file facts are asked from notation-core-go and crypto/x509. non-trivial = some regular file with at least one certificate exists below the root or behind a link; distinct = distinct (tree, type, name)"
 	w.Assumptions = []string{
 		"directory entries are regular files, directories or symbolic links (FIFOs, sockets and devices are outside the property's alphabet: the code would block on a FIFO)",
 		"os.ReadDir of an existing real directory succeeds and files are readable (the harness runs as the owner); a read error is covered by the same branch as a parse error (CErr)",
@@ -934,13 +1201,13 @@ func runC13(a *Args) error {
 	var fail error
 	g.scenarios(a.Tier, func(sc *scenario) {
 		first := id
-		id += int64(len(sc.queries))
+		id += int64(sc.nq())
 		scn++
 		if fail != nil {
 			return
 		}
 		wanted := false
-		for k := range sc.queries {
+		for k := 0; k < sc.nq(); k++ {
 			if w.Want(first + int64(k)) {
 				wanted = true
 			}
@@ -950,57 +1217,74 @@ func runC13(a *Args) error {
 		}
 		scDir := filepath.Join(fsBase, fmt.Sprintf("t%d", scn))
 		root := filepath.Join(scDir, "root")
-		if err := materialise(scDir, root, sc.root); err != nil {
-			fail = fmt.Errorf("materialise scenario %d: %w", scn, err)
-			return
-		}
-		if sc.outside != nil {
-			if err := materialise(scDir, filepath.Join(scDir, "outside"), sc.outside); err != nil {
+		// ONE instance for all steps of a history: the root path stays, the content changes
+		ts := truststore.NewX509TrustStore(dir.NewSysFS(root))
+		steps := sc.steps()
+		my := first - 1
+		for si, st := range steps {
+			if si > 0 && !st.inPlace {
+				os.RemoveAll(root)
+				os.RemoveAll(filepath.Join(scDir, "outside"))
+			}
+			if err := materialise(scDir, root, st.root); err != nil {
 				fail = fmt.Errorf("materialise scenario %d: %w", scn, err)
 				return
 			}
-		}
-		var lines []string
-		d.certs = 0
-		tree := d.node(root, "", 0, &lines)
-		hasCerts := d.certs > 0
-		ts := truststore.NewX509TrustStore(dir.NewSysFS(root))
-		for k, q := range sc.queries {
-			my := first + int64(k)
-			if !w.Want(my) {
-				continue
-			}
-			certs, err := ts.GetCertificates(context.Background(), truststore.Type(q.ty), q.name)
-			var obs, obsText string
-			if err != nil {
-				cls, kind, entry := classify(err)
-				obs = CApp("OErr", cls, kind, CStr(entry))
-				obsText = "error " + cls + "/" + kind + " entry=" + fmt.Sprintf("%q", entry) + ": " + Short(err.Error(), 160)
-				w.Count("observed", kind)
-				if certs != nil {
-					// an error together with certificates: report as a returned list
-					w.ImplViolation(my, "GetCertificates returned certificates together with an error", c13Case{sc.family, q.ty, q.name, lines, obsText}, "partial-with-error")
+			if st.outside != nil {
+				if err := materialise(scDir, filepath.Join(scDir, "outside"), st.outside); err != nil {
+					fail = fmt.Errorf("materialise scenario %d: %w", scn, err)
+					return
 				}
-			} else {
-				ids := make([]string, len(certs))
-				for i, c := range certs {
-					if c == nil {
-						ids[i] = CN(0)
-					} else {
-						ids[i] = CN(int64(p.id(c.Raw)))
+			}
+			var lines []string
+			d.certs = 0
+			tree := d.node(root, "", 0, &lines)
+			hasCerts := d.certs > 0
+			stepText := ""
+			if len(steps) > 1 {
+				stepText = fmt.Sprintf("state %d of %d of one directory, all calls on one X509TrustStore instance", si+1, len(steps))
+			}
+			for _, q := range st.queries {
+				my++
+				// every call of the scenario is made (earlier calls are the state of the instance); only wanted ones are emitted
+				certs, err := ts.GetCertificates(context.Background(), truststore.Type(q.ty), q.name)
+				if !w.Want(my) {
+					continue
+				}
+				var obs, obsText string
+				if err != nil {
+					cls, kind, entry := classify(err)
+					obs = CApp("OErr", cls, kind, CStr(entry))
+					obsText = "error " + cls + "/" + kind + " entry=" + fmt.Sprintf("%q", entry) + ": " + Short(err.Error(), 160)
+					w.Count("observed", kind)
+					if certs != nil {
+						// an error together with certificates: report as a returned list
+						w.ImplViolation(my, "GetCertificates returned certificates together with an error", c13Case{sc.family, q.ty, q.name, lines, obsText, stepText}, "partial-with-error")
 					}
+				} else {
+					ids := make([]string, len(certs))
+					for i, c := range certs {
+						if c == nil {
+							ids[i] = CN(0)
+						} else {
+							ids[i] = CN(int64(p.id(c.Raw)))
+						}
+					}
+					obs = CApp("OOk", CList(ids))
+					obsText = "ok " + CList(ids)
+					w.Count("observed", "loaded")
+					w.Count("loaded_certificates", fmt.Sprint(len(certs)))
 				}
-				obs = CApp("OOk", CList(ids))
-				obsText = "ok " + CList(ids)
-				w.Count("observed", "loaded")
-				w.Count("loaded_certificates", fmt.Sprint(len(certs)))
+				in := CApp("mk_input", CStr(q.ty), CStr(q.name), tree)
+				term := CApp("mk_case", CN(my), in, obs)
+				desc := c13Case{Family: sc.family, Type: q.ty, Name: q.name, Tree: lines, Obs: obsText, Step: stepText}
+				w.Add(my, term, desc, q.ty+"\x00"+q.name+"\x00"+tree, hasCerts)
+				w.Count("family", strings.SplitN(sc.family, ":", 2)[0])
+				if strings.HasPrefix(sc.family, "history:") {
+					w.Count("history", strings.SplitN(sc.family, ":", 2)[1])
+				}
+				w.Count("store_type", fmt.Sprintf("%q", q.ty))
 			}
-			in := CApp("mk_input", CStr(q.ty), CStr(q.name), tree)
-			term := CApp("mk_case", CN(my), in, obs)
-			desc := c13Case{Family: sc.family, Type: q.ty, Name: q.name, Tree: lines, Obs: obsText}
-			w.Add(my, term, desc, q.ty+"\x00"+q.name+"\x00"+tree, hasCerts)
-			w.Count("family", strings.SplitN(sc.family, ":", 2)[0])
-			w.Count("store_type", fmt.Sprintf("%q", q.ty))
 		}
 		os.RemoveAll(scDir)
 	})
